@@ -313,3 +313,20 @@ def fx_fallback(fx):
     n1 = sibling.run(c1, fx, ["src/lib.rs"], only=lambda f: f.startswith("fallback::"))
     n2 = sibling.run(c2, fx, ["src/lib.rs"], only=lambda f: f.startswith("fallback_bad::"))
     return n1 == 1 and not c1.violations and n2 == 1 and len(c2.violations) == 1
+
+
+def fx_commit(fx):
+    from rules import sync
+    c = _ctx()
+    for nm in ("bad_reserve", "ok_reserve", "ok_undo"):
+        sync.commit_before_check(c, Fn(fx.raw("commit::Arena::" + nm)))
+    return _fires(c, "Arena::bad_reserve") and not _fires(c, "Arena::ok_reserve") and not _fires(c, "Arena::ok_undo")
+
+
+def fx_relink(fx):
+    from rules import sync
+    c = _ctx()
+    n = 0
+    for nm in ("ok_push", "bad_push"):
+        n += sync.push_relink(c, Fn(fx.raw("relink::List::" + nm)), fx=fx)
+    return n == 2 and _fires(c, "List::bad_push") and not _fires(c, "List::ok_push")
